@@ -75,3 +75,342 @@ pub(crate) fn mk_request_line(method: Method, http_version: Version) -> RequestL
         http_version,
     }
 }
+
+// ---------------------------------------------------------------------------------------------
+// Reference oracles (written against the property statements, not the implementation)
+// ---------------------------------------------------------------------------------------------
+use crate::verif_params::{M as PM, N as PN};
+
+fn cont(b: u8) -> bool {
+    b >= 0x80 && b <= 0xBF
+}
+
+/// RFC 3629 well-formedness.
+pub(crate) fn utf8_valid(s: &[u8]) -> bool {
+    let n = s.len();
+    let mut i = 0;
+    while i < n {
+        let b = s[i];
+        let need;
+        if b < 0x80 {
+            i += 1;
+            continue;
+        } else if b >= 0xC2 && b <= 0xDF {
+            need = 1;
+        } else if b >= 0xE0 && b <= 0xEF {
+            need = 2;
+        } else if b >= 0xF0 && b <= 0xF4 {
+            need = 3;
+        } else {
+            return false;
+        }
+        if i + need >= n {
+            return false;
+        }
+        let c1 = s[i + 1];
+        let ok1 = match b {
+            0xE0 => c1 >= 0xA0 && c1 <= 0xBF,
+            0xED => c1 >= 0x80 && c1 <= 0x9F,
+            0xF0 => c1 >= 0x90 && c1 <= 0xBF,
+            0xF4 => c1 >= 0x80 && c1 <= 0x8F,
+            _ => cont(c1),
+        };
+        if !ok1 {
+            return false;
+        }
+        if need >= 2 && !cont(s[i + 2]) {
+            return false;
+        }
+        if need >= 3 && !cont(s[i + 3]) {
+            return false;
+        }
+        i += need + 1;
+    }
+    true
+}
+
+/// Model of `core::str::from_utf8` used as a Kani stub: std's validator walks the input in
+/// usize-aligned blocks (`align_offset`, pointer arithmetic), which CBMC cannot execute on more
+/// than ~10 symbolic bytes in reasonable time.  The model accepts exactly the RFC 3629
+/// well-formed strings (what the std function is documented to accept); the error value is a
+/// genuine `Utf8Error` obtained from the (unstubbed) `from_utf8_mut` on a fixed invalid byte.
+pub(crate) fn from_utf8_stub(v: &[u8]) -> Result<&str, core::str::Utf8Error> {
+    if utf8_valid(v) {
+        // SAFETY: just validated.
+        Ok(unsafe { core::str::from_utf8_unchecked(v) })
+    } else {
+        let mut bad = [0xffu8];
+        match core::str::from_utf8_mut(&mut bad) {
+            Err(e) => Err(e),
+            Ok(_) => unreachable!(),
+        }
+    }
+}
+
+/// Model of `core::slice::memchr::memchr` (std's version scans usize-aligned blocks with
+/// pointer-alignment arithmetic): first index of `x` in `text`.
+pub(crate) fn memchr_stub(x: u8, text: &[u8]) -> Option<usize> {
+    let mut i = 0;
+    while i < text.len() {
+        if text[i] == x {
+            return Some(i);
+        }
+        i += 1;
+    }
+    None
+}
+
+fn eq_bytes(a: &[u8], b: &[u8]) -> bool {
+    crate::common::verif_kani::bytes_eq(a, b)
+}
+
+fn find_byte(s: &[u8], from: usize, c: u8) -> Option<usize> {
+    let mut i = from;
+    while i < s.len() {
+        if s[i] == c {
+            return Some(i);
+        }
+        i += 1;
+    }
+    None
+}
+
+/// expected outcome class of RequestLine::try_from: 0 ok, 1 InvalidRequest, 2 method, 3 uri, 4 version
+fn ref_request_line(line: &[u8]) -> (u8, usize, usize) {
+    let sp1 = match find_byte(line, 0, b' ') {
+        Some(i) => i,
+        None => return (1, 0, 0),
+    };
+    let sp2 = match find_byte(line, sp1 + 1, b' ') {
+        Some(i) => i,
+        None => return (1, 0, 0),
+    };
+    let m = &line[..sp1];
+    let u = &line[sp1 + 1..sp2];
+    let v = &line[sp2 + 1..];
+    if !(eq_bytes(m, b"GET") || eq_bytes(m, b"PUT") || eq_bytes(m, b"PATCH")) {
+        return (2, 0, 0);
+    }
+    if u.is_empty() || !utf8_valid(u) {
+        return (3, 0, 0);
+    }
+    if !(eq_bytes(v, b"HTTP/1.0") || eq_bytes(v, b"HTTP/1.1")) {
+        return (4, 0, 0);
+    }
+    (0, sp1, sp2)
+}
+
+// @harness props=C02,C03,C14 tiers=quick:N=6|N=14|N=16;thorough:N=0|N=1|N=2|N=3|N=4|N=5|N=6|N=7|N=8|N=9|N=10|N=11|N=12|N=13|N=14|N=15|N=16|N=17 unwind=N+2 cap=1500 mem=8
+// @fn RequestLine::try_from RequestLine::parse_request_line Method::try_from Uri::try_from Version::try_from request::find
+// @claim the real request-line parser accepts exactly `METHOD SP URI SP VERSION` (METHOD in GET/PUT/PATCH, URI non-empty valid UTF-8 without SP, VERSION HTTP/1.0|1.1) with method, URI bytes and version delivered verbatim; otherwise the error kind names the first offending element in the order shape, method, URI, version
+// @bounds every byte string of length exactly N (all bytes symbolic), one query per N
+// @stubs std::str::from_utf8(model:RFC3629-validator)
+#[kani::proof]
+#[kani::stub(std::str::from_utf8, from_utf8_stub)]
+fn c02_request_line() {
+    let line: [u8; PN] = kani::any();
+    let r = RequestLine::try_from(&line[..]);
+    let (class, sp1, sp2) = ref_request_line(&line[..]);
+    match &r {
+        Ok(rl) => {
+            assert!(class == 0, "[C02] request line outside the grammar accepted");
+            assert!(eq_bytes(rl.method.raw(), &line[..sp1]), "[C02] delivered method differs from the bytes");
+            assert!(eq_bytes(rl.http_version.raw(), &line[sp2 + 1..]), "[C02] delivered version differs from the bytes");
+            let u = rl.uri.string.as_bytes();
+            assert!(u.len() == sp2 - sp1 - 1, "[C02] delivered URI length differs from the bytes");
+            let j: usize = kani::any();
+            kani::assume(j < u.len());
+            assert!(u[j] == line[sp1 + 1 + j], "[C02] delivered URI differs from the bytes");
+        }
+        Err(RequestError::InvalidRequest) => assert!(class == 1, "[C02] error kind does not name the first offending element (shape)"),
+        Err(RequestError::InvalidHttpMethod(_)) => assert!(class == 2, "[C02] error kind does not name the first offending element (method)"),
+        Err(RequestError::InvalidUri(_)) => assert!(class == 3, "[C02] error kind does not name the first offending element (URI)"),
+        Err(RequestError::InvalidHttpVersion(_)) => assert!(class == 4, "[C02] error kind does not name the first offending element (version)"),
+        Err(_) => panic!("[C02] unexpected error kind from the request-line parser"),
+    }
+    kani::cover!(PN < 14 || r.is_ok(), "accepted");
+    kani::cover!(PN < 6 || class == 3, "bad uri");
+    kani::cover!(PN < 6 || class == 2, "bad method");
+    kani::cover!(class == 1, "bad shape");
+    std::mem::forget(r);
+}
+
+// @harness props=C16,C03 tiers=quick:N=5,M=0|N=11,M=1;thorough:N=0,M=0|N=1,M=0|N=2,M=0|N=3,M=0|N=5,M=0|N=7,M=0|N=8,M=0|N=9,M=0|N=8,M=1|N=9,M=1|N=10,M=1|N=11,M=1|N=12,M=1 unwind=N+2 cap=1500 mem=8
+// @fn Uri::get_abs_path
+// @claim abs_path is the URI itself if it starts with '/', the part from the first '/' after the authority for http://authority/..., empty otherwise; the result is a sub-slice of the URI (same bytes, same position)
+// @bounds every valid-UTF-8 URI of exactly N bytes; with M=1 the first 7 bytes are the concrete prefix `http://` and the remaining N-7 are symbolic
+// @stubs std::str::from_utf8(model:RFC3629-validator)
+#[kani::proof]
+#[kani::stub(std::str::from_utf8, from_utf8_stub)]
+fn c16_uri_abs_path() {
+    let mut bytes: [u8; PN] = kani::any();
+    if PM == 1 {
+        let p = b"http://";
+        let mut i = 0;
+        while i < 7 && i < PN {
+            bytes[i] = p[i];
+            i += 1;
+        }
+    }
+    let s = match String::from_utf8(bytes.to_vec()) {
+        Ok(s) => s,
+        Err(e) => {
+            std::mem::forget(e);
+            return;
+        }
+    };
+    let uri = Uri { string: s };
+    let res = uri.get_abs_path();
+    // reference
+    let b = &bytes[..];
+    let mut want_off: Option<usize> = None; // None => ""
+    if PN >= 7 && eq_bytes(&b[..7], b"http://") {
+        if PN > 7 {
+            if let Some(i) = find_byte(b, 7, b'/') {
+                want_off = Some(i);
+            }
+        }
+    } else if PN >= 1 && b[0] == b'/' {
+        want_off = Some(0);
+    }
+    match want_off {
+        None => assert!(res.is_empty(), "[C16] abs_path must be empty for this URI"),
+        Some(off) => {
+            assert!(res.len() == PN - off, "[C16] abs_path is not the expected suffix of the URI (length)");
+            assert!(res.as_bytes()[0] == b'/', "[C16] abs_path does not start with '/'");
+            let j: usize = kani::any();
+            kani::assume(j < res.len());
+            assert!(res.as_bytes()[j] == b[off + j], "[C16] abs_path is not the expected suffix of the URI (bytes)");
+            kani::cover!(PM != 1 || PN <= 9 || off > 7, "path after a non-empty authority");
+        }
+    }
+    kani::cover!(want_off.is_none(), "empty path");
+    std::mem::forget(uri);
+}
+
+// ---------------------------------------------------------------------------------------------
+// C14: one-shot parser framing, content parsers surrogated through the hooks
+// ---------------------------------------------------------------------------------------------
+fn ref_find_seq(s: &[u8], from: usize, pat: &[u8]) -> Option<usize> {
+    let mut i = from;
+    while i + pat.len() <= s.len() {
+        let mut k = 0;
+        let mut ok = true;
+        while k < pat.len() {
+            if s[i + k] != pat[k] {
+                ok = false;
+            }
+            k += 1;
+        }
+        if ok {
+            return Some(i);
+        }
+        i += 1;
+    }
+    None
+}
+
+// @harness props=C14,C03 tiers=quick:N=22;thorough:N=18|N=20|N=22|N=24 unwind=N+2 cap=2400 mem=12
+// @fn Request::try_from request::find RequestLine::min_len
+// @claim one-shot framing == reference splitter: reject if len>=max; request line = bytes up to the first CRLF (>= 14 bytes) handed to the line parser; first CRLFCRLF at or after it ends the header block, which is handed over exactly; body must be exactly Content-Length bytes, a GET must not declare one; without a declared length trailing bytes are ignored; no panic on any input (headers_end - CRLF_LEN, len - crlf_end and all slices)
+// @bounds every input of exactly N bytes (all symbolic); max_len None or Some(symbolic); request-line and header-block content parsers replaced by surrogates
+#[kani::proof]
+fn c14_oneshot_framing() {
+    unsafe {
+        SUR_RL = true;
+        crate::headers::verif_kani::SUR_HB = true;
+        LOG_N = 0;
+    }
+    let bytes: [u8; PN] = kani::any();
+    let watch: usize = kani::any();
+    kani::assume(watch < PN);
+    unsafe { WATCH = watch };
+    let max_len: Option<usize> = if kani::any() { Some(kani::any()) } else { None };
+    let r = Request::try_from(&bytes[..], max_len);
+    // ---- reference ----
+    let b = &bytes[..];
+    // class: 0 ok, 1 InvalidRequest, 2 line-parser error, 3 header-parser error
+    let mut class = 0u8;
+    let mut want_body: Option<(usize, usize)> = None;
+    let mut want_cl = 0u32;
+    let mut e1 = 0usize;
+    let mut hb: Option<(usize, usize)> = None;
+    let too_long = matches!(max_len, Some(l) if PN >= l);
+    if too_long {
+        class = 1;
+    } else {
+        match ref_find_seq(b, 0, b"\r\n") {
+            None => class = 1,
+            Some(e) => {
+                e1 = e;
+                if e < 14 {
+                    class = 1;
+                } else if b[0] & 0x80 != 0 {
+                    class = 2;
+                } else {
+                    match ref_find_seq(b, e, b"\r\n\r\n") {
+                        None => class = 1,
+                        Some(h) if h == e => {}
+                        Some(h) => {
+                            hb = Some((e + 2, h));
+                            let first = b[e + 2];
+                            if first & 0x80 != 0 {
+                                class = 3;
+                            } else {
+                                want_cl = (first & 0x0f) as u32;
+                                if want_cl != 0 {
+                                    let is_get = b[0] & 3 == 0;
+                                    let body_start = h + 4;
+                                    if is_get || PN - body_start != want_cl as usize {
+                                        class = 1;
+                                    } else {
+                                        want_body = Some((body_start, PN));
+                                    }
+                                }
+                            }
+                        }
+                    }
+                }
+            }
+        }
+    }
+    match &r {
+        Ok(req) => {
+            assert!(class == 0, "[C14] one-shot parser accepted a slice the reference framing rejects");
+            assert!(req.headers.content_length() == want_cl, "[C14] header block not taken from the expected extent");
+            match (&req.body, want_body) {
+                (None, None) => {}
+                (Some(body), Some((s, e))) => {
+                    assert!(body.len() == e - s, "[C14] one-shot body length");
+                    let j: usize = kani::any();
+                    kani::assume(j < e - s);
+                    assert!(body.raw()[j] == b[s + j], "[C14] one-shot body bytes");
+                    kani::cover!(true, "accepted with body");
+                }
+                _ => panic!("[C14] one-shot body presence differs from the reference"),
+            }
+            // the line parser saw exactly bytes[..e1]
+            let (k0, l0, d0) = unsafe { LOG[0] };
+            assert!(k0 == 1 && l0 == e1, "[C14] request line extent");
+            if watch < e1 {
+                assert!(d0 == b[watch], "[C14] request line bytes");
+            }
+            if let Some((hs, he)) = hb {
+                let (k1, l1, d1) = unsafe { LOG[1] };
+                assert!(unsafe { LOG_N } == 2 && k1 == 3 && l1 == he - hs, "[C14] header block extent");
+                if watch < l1 {
+                    assert!(d1 == b[hs + watch], "[C14] header block bytes");
+                }
+            } else {
+                assert!(unsafe { LOG_N } == 1);
+                kani::cover!(true, "accepted without headers");
+            }
+        }
+        Err(RequestError::InvalidRequest) => assert!(class == 1, "[C14] one-shot parser rejected a slice the reference framing accepts (or with another error)"),
+        Err(RequestError::InvalidHttpMethod(_)) => assert!(class == 2, "[C14] line-parser error expected"),
+        Err(RequestError::HeaderError(_)) => assert!(class == 3, "[C14] header-parser error expected"),
+        Err(_) => panic!("[C14] unexpected error kind"),
+    }
+    kani::cover!(class == 1 && !too_long && e1 >= 14, "rejected by framing after the request line");
+    std::mem::forget(r);
+}
